@@ -18,7 +18,9 @@ RULE = ("fault/input enumeration under AddressSanitizer + UndefinedBehaviorSanit
         "zeros, 0xFF, all 256 first bytes, every byte position flipped}; buffer PLACEMENT: every valid object marshalled to and parsed from a buffer that starts at "
         "allocation + off for EVERY off in 0..15 (byte buffers carry no alignment); SIZES: parameter sets fresh from setup and keys for l = 5..257 (every 2^k and "
         "its neighbours) marshalled, parsed and re-marshalled; on x86-64 asm, portable 64-bit and portable 32-bit builds; plus the call sequences of the "
-        "other properties' quick checks executed once under the same sanitizers. distinct = distinct (kind, encoding, mode, fill, length, first byte); "
+        "other properties' quick checks executed once under the same sanitizers; GUARD PAGES: the call alphabets of the field-tower, point, target-group and pairing "
+        "checks re-run on the assembly back end with every argument / result object flush against an inaccessible page (after its end, and before its start), "
+        "which also sees accesses made by the hand-written assembly. distinct = distinct (kind, encoding, mode, fill, length, first byte); "
         "non-trivial = length accepted by the length-discovery function or a fixed-size parse")
 ASSUMPTIONS = ["ASan/UBSan are the monitor: an access they cannot see (e.g. inside the assembly routines) is not detected here (covered by C03's interpreters and C20's write monitor)",
                "MemorySanitizer is not used (BigInt is a union with deliberately uninitialised wider members)",
@@ -87,6 +89,8 @@ def eval_case(case):
         return []
     if case["sub"] == "subcheck":
         return run_subcheck(case["check"], case.get("deadline", 120))[1]
+    if case["sub"] == "guard":
+        return run_guarded(case["check"], case["mode"], case.get("deadline", 300))[1]
     raise ValueError(case["sub"])
 
 
@@ -119,6 +123,39 @@ def run_subcheck(check, deadline):
     return evals, msgs
 
 
+GUARD_CHECKS = ["C04", "C05", "C07", "C08"]
+
+
+def run_guarded(check, mode, deadline):
+    """re-runs another check's quick call alphabet with every argument / result object flush against an inaccessible page (after the object's
+    last byte, or before its first): an access beyond the object faults even when hand-written assembly makes it, which ASan / UBSan do not
+    instrument.  Only a fatal signal counts (the replayed check's own verdict is not this property's business)."""
+    out = tempfile.mkdtemp(prefix="c17guard")
+    env = dict(os.environ)
+    env.update({"VERIF_GUARD": mode, "VERIF_OUT": out, "VERIF_DEADLINE": str(deadline)})
+    try:
+        p = subprocess.run(["./vcheck", check, "--tier", "quick", "--nproc", "4"], cwd=build.VERIF, stdout=subprocess.PIPE, stderr=subprocess.PIPE, text=True, env=env,
+                           errors="replace", timeout=deadline + 900)
+        rc, text = p.returncode, p.stdout + p.stderr
+    except subprocess.TimeoutExpired:
+        rc, text = 0, ""
+    evals = 0
+    try:
+        evals = json.load(open(os.path.join(out, "evidence", check + ".json")))["coverage"]["evaluations"]
+    except Exception:
+        pass
+    for root, _, files in os.walk(out, topdown=False):
+        for f in files:
+            os.unlink(os.path.join(root, f))
+        os.rmdir(root)
+    msgs = []
+    crash = [l for l in text.splitlines() if l.startswith("VIOLATION") and "# crash:" in l]
+    if crash or rc < 0 or "worker process died" in text:
+        msgs.append("with every object placed against an inaccessible page (%s), the call alphabet of %s dies with a fatal signal: an access beyond an argument or result object. %s"
+                    % ("after its end" if mode == "end" else "before its start", check, (crash[0].split("# crash:")[1][:300] if crash else "")))
+    return evals, msgs
+
+
 def shards(ctx):
     for c in SAN_CFG:
         fuzz_exe(c)
@@ -139,12 +176,22 @@ def shards(ctx):
                     out.append({"sub": "fuzz", "cfg": cfg, "kind": "large", "compressed": comp, "checked": checked, "fill": "alphabet"})
     for chk in (SUBCHECKS_QUICK if ctx.tier == "quick" else SUBCHECKS_THOROUGH):
         out.append({"sub": "subcheck", "check": chk, "deadline": 300 if ctx.tier == "quick" else 900})
+    for chk in GUARD_CHECKS:
+        for mode in ("end", "start"):
+            out.append({"sub": "guard", "check": chk, "mode": mode, "deadline": 300 if ctx.tier == "quick" else 900})
     # sub-checks are the long poles: start them first
-    out.sort(key=lambda s: 0 if s["sub"] == "subcheck" else 1)
+    out.sort(key=lambda s: 0 if s["sub"] in ("subcheck", "guard") else 1)
     return out
 
 
 def run_shard(ctx, shard):
+    if shard["sub"] == "guard":
+        evals, msgs = run_guarded(shard["check"], shard["mode"], shard["deadline"])
+        ctx.ok(True, "guard-pages:" + shard["mode"], n=max(evals, 1))
+        ctx.extra["guarded_evaluations"] += evals
+        if msgs:
+            ctx.fail(dict(shard), msgs[0], sig="guard:" + shard["check"])
+        return
     if shard["sub"] == "subcheck":
         evals, msgs = run_subcheck(shard["check"], shard["deadline"])
         ctx.ok(True, "under-sanitizers:" + shard["check"], n=max(evals, 1))
@@ -190,4 +237,5 @@ def finish(merged, cov):
         return "no buffer was ever accepted: the enumeration would be vacuous"
     cov["objects_accepted_and_remarshalled"] = merged.extra.get("remarshalled", 0)
     cov["evaluations_of_other_checks_under_sanitizers"] = merged.extra.get("subcheck_evaluations", 0)
+    cov["evaluations_with_guard_pages"] = merged.extra.get("guarded_evaluations", 0)
     return None
